@@ -99,11 +99,18 @@ type PipeCfg struct {
 	DBM         DBMap
 	Filters     *FilterSpec
 	BufSize     int
+	// bidirectional replay
+	Bisync      bool
+	Mode        string // sync | pipeline | parallel
+	Parallelism int
 }
 
 func (c PipeCfg) String() string {
 	s := fmt.Sprintf("batch=%d/%dB tick=%v ka=%v cp=%v pipeline=%v txn=%v resume=%v targetDb=%d map=%v buf=%d",
 		c.BatchCount, c.BatchBytes, c.BatchTicker, c.Keepalive, c.CpTicker, c.Pipeline, c.Txn, c.Resume, c.DBM.TargetDb, c.DBM.TargetDbMap, c.BufSize)
+	if c.Bisync {
+		s += fmt.Sprintf(" bisync{mode=%s parallelism=%d}", c.Mode, c.Parallelism)
+	}
 	if f := c.Filters; f != nil {
 		s += fmt.Sprintf(" filters{cmd=%q db=%v pblack=%q pwhite=%q swhite=%v sblack=%v}", f.CmdBlacklist, f.DbBlacklist, f.PrefixBlack, f.PrefixWhite, f.SlotWhite, f.SlotBlack)
 	}
@@ -189,6 +196,12 @@ func (c PipeCfg) outputConfig(runID, cpName string) syncer.RedisOutputConfig {
 		MaxProtoBulkLen:            512 * 1024 * 1024,
 	}
 	oc.Stats.DisableLog = true
+	if c.Bisync {
+		oc.BisyncEnabled = true
+		oc.ReplayMode = config.ReplayMode(c.Mode)
+		oc.ReplayPipeline = c.Mode == "pipeline"
+		oc.Parallelism = c.Parallelism
+	}
 	if f := c.Filters; f != nil {
 		oc.Filter.CmdBlacklist = f.CmdBlacklist
 		oc.Filter.DbBlacklist = f.DbBlacklist
